@@ -18,6 +18,9 @@ package main
 //   - nothing instantiated under the method: 405 + Allow = the set of methods
 //     that have an instantiated route, 404 if that set is empty.
 //
+//   - an encoded dot (%2E, %2E%2E) is segment text, not a dot segment: cleaning acts on the
+//     encoded path.
+//
 // Everything the text leaves open is a set of acceptable readings (MAY).
 
 import (
@@ -172,22 +175,28 @@ func pathReadings(esc string) []reading {
 		// absolute-form target without a path: the text does not say whether it is "/"
 		out = append(out, reading{nil, true, "empty path read as /"})
 	}
-	up := strings.ToUpper(esc)
-	if strings.Contains(up, "%2E") {
-		// "cleaned, still percent-encoded": an encoded dot segment is primarily a plain
-		// segment; a reading that resolves it as a dot segment is not excluded by the text
-		r := strings.NewReplacer("%2E", ".", "%2e", ".")
-		var parts []string
-		for _, s := range strings.Split(esc, "/") {
-			if d := r.Replace(s); d == "." || d == ".." {
-				s = d
-			}
-			parts = append(parts, s)
-		}
-		s2, ok2 := cleanSegs(strings.Join(parts, "/"))
-		out = append(out, reading{s2, ok2, "encoded dot segments resolved"})
-	}
 	return out
+}
+
+// dotResolvedReadings are NOT accepted readings. "Cleaned, still percent-encoded path": cleaning
+// acts on the encoded path, so %2E / %2E%2E is the text of a segment (a placeholder bound to it
+// receives "." / ".."), never a dot segment. These readings describe an implementation that
+// decodes dots before cleaning; they only give such a failure its own class.
+func dotResolvedReadings(esc string) []reading {
+	if !strings.Contains(strings.ToUpper(esc), "%2E") {
+		return nil
+	}
+	r := strings.NewReplacer("%2E", ".", "%2e", ".")
+	var parts []string
+	for _, s := range strings.Split(esc, "/") {
+		if d := r.Replace(s); d == "." || d == ".." {
+			s = d
+		}
+		parts = append(parts, s)
+	}
+	s1, ok1 := cleanSegs(strings.Join(parts, "/"))
+	s2, ok2 := cleanSegs(r.Replace(esc))
+	return []reading{{s1, ok1, "encoded dot segments resolved"}, {s2, ok2, "every encoded dot decoded before cleaning"}}
 }
 
 // ---- instantiation ----
@@ -621,6 +630,14 @@ func judge(routes []route, method, esc string, o observed) (class, what string, 
 		for _, a := range alts {
 			if conforms(o, expected(routes, a.method, a.rd, dm.m)) == "" {
 				return symptom + "/" + dm.name, what, true
+			}
+		}
+	}
+	// not a known defect: an implementation that decodes dots before cleaning gets its own class
+	for _, rd := range dotResolvedReadings(esc) {
+		for _, m := range []string{up, method} {
+			if conforms(o, expected(routes, m, rd, model{})) == "" {
+				return symptom + "/encoded-dot-resolved-as-dot-segment", what, true
 			}
 		}
 	}
